@@ -609,7 +609,12 @@ func wRunCase(o *common.Out, id string, c wCase, r *common.Rand) {
 		toks = append(toks, pred[i].tok(i), "X;"+strconv.Itoa(i))
 	}
 	toks = append(toks, "S;"+strings.Join(sched, ","))
-	o.Case(id, strings.Join(toks, " "), obs, len(order) >= 2)
+	if len(c.ws) > 200 {
+		// a burst of over a thousand writers: the list-based model would take minutes; the oracle above is independent of it
+		o.ImplOnly(id, line, true)
+	} else {
+		o.Case(id, strings.Join(toks, " "), obs, len(order) >= 2)
+	}
 	for _, f := range fails {
 		o.Fail(id, f[:strings.Index(f, ":")], f, line)
 	}
@@ -734,6 +739,22 @@ func runShared(r *common.Rand, tier string, o *common.Out, replay string) {
 				}
 			}
 		}
+	}
+	// bursts: more than a thousand frames of one size class encoded and waiting for the transport at the same time,
+	// written, and then as many again (what stands between the encoders and sync.Pool is driven to its capacity)
+	for _, depth := range []int{1030} {
+		c := wCase{side: "cli"}
+		for b := 0; b < 2; b++ {
+			for i := 0; i < depth; i++ {
+				c.ws = append(c.ws, wWriter{kind: "G", pad: 100})
+				c.ops = append(c.ops, "s"+strconv.Itoa(b*depth+i))
+			}
+			for i := 0; i < depth; i++ {
+				c.ops = append(c.ops, "r"+strconv.Itoa(b*depth+i))
+			}
+		}
+		wRunCase(o, fmt.Sprintf("burst%d", depth), c, r)
+		n++
 	}
 	m := 150
 	if tier == "thorough" {
